@@ -143,6 +143,7 @@ def check(case):
         alternations = 2
     else:
         outs, victim, alternations = run_word(ds, word, k)
+    deferred = None
     for i, out in enumerate(outs):
         if stage == 'choice':
             if len(out) != extra or len(set(out)) != len(out) or not set(out) <= set(range(n)):
@@ -151,8 +152,11 @@ def check(case):
         want = sorted(list(range(n)) * (extra if stage == 'tile_shuffle' else 1))
         if sorted(out) != want:
             if stage in BARE_RESHUFFLE and victim[i]:
-                raise Violation('overlapped-reshuffle-iterator|reshuffle',
-                                f'{desc}\niterator {i} (overlapped by a later-started iterator) yielded {out}')
+                # known open finding K1: reported after the other iterators of this case have been judged
+                deferred = deferred or Violation(
+                    'overlapped-reshuffle-iterator|reshuffle',
+                    f'{desc}\niterator {i} (overlapped by a later-started iterator) yielded {out}')
+                continue
             raise Violation(f'not-a-permutation|{stage}', f'{desc}\niterator {i} yielded {out}; input 0..{n - 1}')
         if stage == 'tile_shuffle':
             for r in range(extra):
@@ -165,6 +169,8 @@ def check(case):
                     raise Violation(f'displacement|{stage}',
                                     f'{desc}\nexample {src} emitted at position {pos}: {src - pos} positions early, '
                                     f'buffer_size {buf}; output {out}')
+    if deferred is not None:
+        raise deferred
     return alternations
 
 
